@@ -91,6 +91,8 @@ SHARE = [
     (r"^c07_settings$", ["C16"]),
     (r"^c04_close_(pendingack|highpubrel)$", ["C06", "C15"]),
     (r"^c15_close_current_k[123]_", ["C04"]),
+    (r"^c15_close_current_k2_preservenothing_q2$", ["C07"]),
+    (r"^c03_reset_for_new_connection$", ["C11", "C07"]),
     (r"^c15_close_current_k0_preserveall_q2$", ["C10"]),
     (r"^c15_session_absent_", ["C04", "C06"]),
     (r"^c08_mirror_pub_(user|resubmit)_p2s0$", ["C09", "C10"]),
